@@ -467,3 +467,23 @@ Theorem C01_source_sortedvalues : forall p f rv, Good p ->
   = (match pm_sortedvalues p f rv with Ok r => Ok (VOtherObj r) | Raise e => Raise e end, p).
 Proof. exact (source_sortedvalues 1). Qed.
 Print Assumptions C01_source_sortedvalues.
+
+(* the constructor path: __init__ with its star-args and keyword arguments, the classmethod fromkeys, __reduce_ex__ (copy / pickle) *)
+From Boltons Require Import Proofs.C01_SrcEq8.
+Theorem C01_source_init : forall p q args kw, PInv p -> NoDup (map fst kw) ->
+  match args with
+  | VArgs0 | VArgsMany => True
+  | VArgs1 a q' => Good q' /\ wf_op (UpdateExtend a []) = true
+  | _ => False
+  end ->
+  src_call MInit [args; VKw kw] p = ok_or_same p (init_model p q args kw).
+Proof. exact (source_init 0). Qed.
+Print Assumptions C01_source_init.
+Theorem C01_source_fromkeys : forall p ks d,
+  src_call MFromKeys [VToks ks; VTok d] p = (new_from (map (fun k => (k, d)) ks), p).
+Proof. exact (source_fromkeys 3). Qed.
+Print Assumptions C01_source_fromkeys.
+Theorem C01_source_reduce_ex : forall p proto, Good p ->
+  src_call MReduceEx [proto] p = (Ok (VReduce (pm_items p)), p).
+Proof. exact (source_reduce_ex 0). Qed.
+Print Assumptions C01_source_reduce_ex.
